@@ -214,6 +214,10 @@ def counter_width(ctx, rule):
                     if isinstance(x, tuple) and x and x[0] == "cast" and x[3] == "IntToInt":
                         n += 1
                         ctx.ob(rule, "counter|cast|%s" % x[2], bits.get(x[2], 0) >= 32, "the number of requests read is converted to %s before it is added to the counter" % x[2], fn.loc(e[1]))
+                    if isinstance(x, tuple) and x and is_call(x, "try_from", "try_into") and x[1].startswith(("std::convert::", "core::convert::")):
+                        # a checked conversion cannot narrow silently; its target is the counter's own type (argument of checked_add)
+                        n += 1
+                        ctx.ob(rule, "counter|checked-conversion", True, "the number of requests read is converted with try_from (fails instead of truncating)", fn.loc(e[1]))
     ctx.ob(rule, "counter|floor", n >= 1, "%d conversion(s) on the way into the counter inspected" % n)
 
 
